@@ -14,11 +14,27 @@ struct State {
     int count = 1;
     int arrivals_invoked = 0;
     int arrivals_done = 0;
+    int total_arrivals = 0;  // static: arrival ops in the program
+    long datum[gsim::MAX_THREADS + 1] = {0};  // plain data written before arriving
+    bool writes[gsim::MAX_THREADS + 1] = {false};
 };
 State* S;
 
+void read_published()
+{
+    // with exactly `count` arrivals in the whole program every arrival happened
+    // before the latch opened, so everything the arrivers wrote is visible
+    if (S->total_arrivals != S->count) return;
+    for (int t = 0; t <= gsim::MAX_THREADS; t++)
+        if (S->writes[t] && S->datum[t] != 1000 + t)
+            gsim::fail("stale_publication", "data written by thread slot %d before arrive() reads "
+                       "%ld after the latch opened", t, S->datum[t]);
+    gsim::probe("latch.publication_checked");
+}
+
 void check_open(const char* what)
 {
+    read_published();
     gsim::Oracle o;
     if (S->arrivals_invoked < S->count)
         gsim::fail("early_open", "%s returned when only %d of the %d required arrivals had even "
@@ -34,6 +50,7 @@ void body(int t)
         for (int y = 0; y < op.a; y++) gsim::yield();
         switch (op.code) {
             case OP_ARRIVE:
+                S->datum[t] = 1000 + t;
                 {
                     gsim::Oracle o;
                     S->arrivals_invoked++;
@@ -46,6 +63,7 @@ void body(int t)
                 check_open("wait()");
                 break;
             case OP_ARRIVE_AND_WAIT:
+                S->datum[t] = 1000 + t;
                 {
                     gsim::Oracle o;
                     S->arrivals_invoked++;
@@ -109,6 +127,10 @@ void run()
         bool blocked = false;
         for (int i = 0; i < gsim::prog_len(t); i++) {
             int c = gsim::prog_op(t, i).code;
+            if (c == OP_ARRIVE || c == OP_ARRIVE_AND_WAIT) {
+                st.total_arrivals++;
+                st.writes[t] = true;
+            }
             if ((c == OP_ARRIVE || c == OP_ARRIVE_AND_WAIT) && !blocked) free_arrivals++;
             if (c != OP_ARRIVE) {
                 blocked = true;
